@@ -95,4 +95,9 @@ theorem escTok_false_eq (out rest : List Tok) : escTok false out rest = out ++ e
   | nil => simp [escTok, escT]
   | cons t r ih => cases t <;> simp [escTok, escT, ih]
 
+theorem stripT_append (a c : List Tok) : stripT (a ++ c) = stripT a ++ stripT c := by
+  induction a with
+  | nil => simp [stripT]
+  | cons t r ih => cases t <;> simp [stripT, ih]
+
 end Redact
